@@ -36,14 +36,14 @@ class DiamondGroove(GenericElongationGroove):
         if tip_angle is not None:
             tip_angle = np.deg2rad(tip_angle)
 
-        if usable_width and tip_depth and not tip_angle:
+        if usable_width is not None and tip_depth is not None and tip_angle is None:
             alpha = np.arctan(tip_depth / (usable_width / 2))
 
-        elif usable_width and tip_angle and not tip_depth:
+        elif usable_width is not None and tip_angle is not None and tip_depth is None:
             alpha = np.pi / 2 - tip_angle / 2
             tip_depth = usable_width / 2 * np.tan(alpha)
 
-        elif tip_depth and tip_angle and not usable_width:
+        elif tip_depth is not None and tip_angle is not None and usable_width is None:
             alpha = np.pi / 2 - tip_angle / 2
             usable_width = tip_depth / np.tan(alpha) * 2
         else:
